@@ -15,10 +15,12 @@ def run(cmd, **kw):
 
 def sh(c): return run(c, shell=True)
 
-sh(f"git -C {wt} checkout -- func_adl_xAOD")
+sh(f"git -C {wt} reset -q --hard")
 demo = wt / f"demo_{k}.py"; patch = wt / f"mutant_{k}.diff"
 r0 = run([PY, str(demo)], cwd=wt, env=env)
 ap = sh(f"git -C {wt} apply {patch}")
+if ap.returncode != 0:
+    ap = sh(f"git -C {wt} apply -3 {patch}")  # the tree moved on since the patch was written
 tests = run([PY, "-m", "pytest", "-q", "-p", "no:cacheprovider", "-x"], cwd=wt, env=env)
 tline = [l for l in tests.stdout.splitlines() if "passed" in l or "failed" in l][-1:] or [tests.stdout[-200:]]
 r1 = run([PY, str(demo)], cwd=wt, env=env)
@@ -44,7 +46,7 @@ for c in checks:
     if cr.returncode == 2:
         info["stderr"] = cr.stderr[-600:]
     meta["checks"][c] = info
-sh(f"git -C {wt} checkout -- func_adl_xAOD")
+sh(f"git -C {wt} reset -q --hard")
 shutil.rmtree(scratch, ignore_errors=True)
 out = Path("/verif/seeded") / f"{pid}-{os.environ.get('SEED_TAG', '')}{k}"
 out.mkdir(parents=True, exist_ok=True)
